@@ -60,7 +60,7 @@ def gen(rng: Any, prop: str, tier: str) -> dict[str, Any]:
         sid = rng.choice(sids)
         cur = rng.choice([0, 1])
         have = sorted(g.m.sessions[sid]["vars"])
-        kind = rng.choices(["set", "unset", "use", "use_where", "insert", "undef", "lookalike", "noise", "bound"], [10, 2, 10, 4, 4, 3, 2, 2, 4])[0]
+        kind = rng.choices(["set", "unset", "use", "use_where", "insert", "undef", "lookalike", "noise", "bound", "reset_episode"], [10, 2, 10, 4, 4, 3, 2, 2, 4, 3])[0]
         if kind == "set" or not have:
             n = rng.choice(names)
             r = rng.random()
@@ -95,6 +95,18 @@ def gen(rng: Any, prop: str, tier: str) -> dict[str, Any]:
                     g.exec(sid, {"t": "select_var", "names": [n]}, cur=cur)
                 else:
                     g.exec(sid, {"t": "insert_vars", "ref": [None, None, "T1"], "vars": [n, n]}, cur=cur)
+        elif kind == "reset_episode" and have:
+            # cursor A uses $v, the variable is SET again through the sibling cursor, cursor A repeats the identical statement
+            n = rng.choice(have)
+            st_use = {"t": "select_var", "names": [n]}
+            from ..sqlgen import render
+
+            sql = render(st_use, g.sp)
+            g.m.apply(sid, st_use)
+            g.ops.append({"s": sid, "k": "exec", "cur": cur, "sql": sql, "st": st_use})
+            g.exec(sid, {"t": "set_var", "name": n, "value": g.fresh()}, cur=1 - cur)
+            g.m.apply(sid, st_use)
+            g.ops.append({"s": sid, "k": "exec", "cur": cur, "sql": sql, "st": st_use})
         elif kind == "bound":
             # a bound value is data, whatever it contains: it is never a variable reference
             text = rng.choice(["pay $V1 now", "$V", "cost $5", "100% $VAR_1", "plain", "it's $MYVAR"])
